@@ -106,7 +106,7 @@ def run(ctx):
                         reads_sha = [x for x in walk(sha_e) if isinstance(x, tuple) and x[0] == "call" and x[1].endswith("fs::read")]
                         ok = bool(reads_size) and bool(reads_sha) and reads_size[0] == reads_sha[0]
                         has_len = any(isinstance(x, tuple) and (x[0] == "len" or (x[0] == "call" and x[1].endswith("::len"))) for x in walk(size_e))
-                        has_sha = any(isinstance(x, tuple) and x[0] == "call" and x[1].endswith("Sha1::from") for x in walk(sha_e)) and any(isinstance(x, tuple) and x[0] == "call" and x[1].endswith("::digest") for x in walk(sha_e))
+                        has_sha = any(isinstance(x, tuple) and x[0] == "call" and "Sha1::from" in x[1] for x in walk(sha_e)) and any(isinstance(x, tuple) and x[0] == "call" and x[1].endswith("::digest") for x in walk(sha_e))
                         ctx.ob("SAMEFILE", "size-and-digest", ok and has_len and has_sha, f"file_size = {show(size_e)[:90]}; sha1 = {show(sha_e)[:110]}; both must come from the same read() buffer (len / Sha1::from..digest)", nb.file, nb.line, sample=True)
                         path_arg = reads_size[0][2][0] if reads_size else None
                         fn_calls = [x for x in walk(name_e) if isinstance(x, tuple) and x[0] == "call" and x[1].endswith("Path::file_name")]
